@@ -693,7 +693,20 @@ class World:
             if item['type'] in ('ADDED', 'MODIFIED', 'DELETED'):
                 s.last_rv = int(item['object']['metadata']['resourceVersion'])
                 s.delivered.append((s.last_rv, item['type'], item['object']['metadata'].get('name')))
-            s.buffer.append(json.dumps(item).encode('utf-8') + b'\n')
+            line = json.dumps(item).encode('utf-8') + b'\n'
+            # how the bytes of a watch event reach the client is the network's business (TCP segments, TLS records, HTTP chunks,
+            # re-chunking proxies): a line can come whole, in pieces, or with its newline in a read of its own
+            framing = getattr(self, 'framing', 'line')
+            if framing == 'newline-alone':
+                s.buffer.extend([line[:-1], b'\n'])
+            elif framing == 'split-mid':
+                s.buffer.extend([line[:len(line) // 2], line[len(line) // 2:]])
+            elif framing == 'newline-leads':      # the newline travels with the first bytes of what follows; a blank keep-alive line ends the read
+                s.buffer.extend([line[:-1], b'\n\n'])
+            elif framing == 'bytes3':
+                s.buffer.extend([line[i:i + 3] for i in range(0, len(line), 3)])
+            else:
+                s.buffer.append(line)
         self._wake(s)
         return item
 
